@@ -349,6 +349,11 @@ def rule_scratch(fx, rep):
         cb = fx.body(callee_name(t)) if callee_name(t) else None
         if cb is not None and cb.name not in acc and norm(cb.name).startswith("chess::zobrist::") and cb.kind == "Fn" and cb not in helpers and cb is not h:
             helpers.append(cb)
+    # ... also when the helper is called from a (nested) closure of `hash` (`PLAYERS.iter().fold(.., |acc, p| .. helper(game, p, k))`)
+    for nm in sorted(fx.cone([h.name])):
+        cb = fx.bodies[nm]
+        if cb.kind == "Fn" and cb is not h and cb.name not in acc and norm(cb.name).startswith("chess::zobrist::") and cb not in helpers and norm(cb.name) != "chess::zobrist::init":
+            helpers.append(cb)
     hash_bodies = [h] + helpers + [cb for cn_, cb in fx.bodies.items() if cb.kind == "Closure" and any(cn_.startswith(b0.name + "::{closure") for b0 in [h] + helpers)]
     used_by_hash = {norm(callee_name(t)) for b0 in hash_bodies for bb, t in b0.calls() if callee_name(t) and fx.body(callee_name(t)) and fx.body(callee_name(t)).name in acc}
     used_by_toggles = set()
@@ -417,10 +422,15 @@ def rule_scratch(fx, rep):
                     se = recv
                 inner_sites.append([pe, ke, se])
         for inner in inner_sites:
+            direct = False
             for bb2, t2 in h.calls():
                 if callee_name(t2) and fx.body(callee_name(t2)) is hb:
                     actual = tuple(h.expr(a, expand_named=True, at=bb2) for a in t2["args"])
                     psites.append((t2, [substitute_args(e, actual) for e in inner]))
+                    direct = True
+            if not direct:
+                # called from a closure of `hash`: judged on the helper's own parameters (loop form)
+                psites.append(({"line": hb.line}, list(inner)))
     for t, (pe, ke, sq) in psites:
         p = enum_const(pe)
         k = enum_const(ke)
